@@ -71,7 +71,7 @@ instance {δ : Type} (a : Arguments δ) : Decidable a.WF := by unfold Arguments.
 /-! ## `argument_elide_name` -/
 
 def startsDunder : Name → Bool
-  | '_' :: '_' :: _ => true
+  | a :: b :: _ => a == '_' && b == '_'
   | _ => false
 
 def endsDunder : Name → Bool
@@ -85,42 +85,55 @@ def elideName (n : Name) : Bool := startsDunder n && !endsDunder n
 
 /-! ## `transform_args` -/
 
-/-- `make_argument(a, default, kind, no_type_check, pos_only)` (the `Argument` it builds) -/
+/-- `make_argument(a, default, kind, no_type_check, pos_only)` (the `Argument` it builds): the legacy
+    `__x` convention is applied to *every* parameter, whatever its kind -/
 def mkArg {δ : Type} (n : Name) (d : Option δ) (k : Kind) (posOnly : Bool) : Arg δ :=
   { name := n, kind := k, posOnly := posOnly || elideName n, default := d }
+
+/-- what the native front end delivers (observed; the writer is the external `ast_serialize`): the `__x`
+    convention only for positional parameters (`ARG_POS` / `ARG_OPT`) -/
+def mkArgNative {δ : Type} (n : Name) (d : Option δ) (k : Kind) (posOnly : Bool) : Arg δ :=
+  { name := n, kind := k, posOnly := posOnly || (elideName n && (k == .pos || k == .opt)), default := d }
 
 /-- `[f(i, x) for i, x in enumerate(xs, start)]` -/
 def mapIdxFrom {α β : Type} (f : Nat → α → β) : Nat → List α → List β
   | _, [] => []
   | i, x :: xs => f i x :: mapIdxFrom f (i + 1) xs
 
-def optArg {δ : Type} (o : Option Name) (k : Kind) : List (Arg δ) :=
+def optArg {δ : Type} (mk : Name → Option δ → Kind → Bool → Arg δ) (o : Option Name) (k : Kind) : List (Arg δ) :=
   match o with
   | none => []
-  | some n => [mkArg n none k false]
+  | some n => [mk n none k false]
 
 def kwKind {δ : Type} (kd : Option δ) : Kind :=
   match kd with
   | none => .named
   | some _ => .namedOpt
 
-/-- `ASTConverter.transform_args`.  `num_no_defaults` is a Python `int`; under `Arguments.WF` (always true
-    of a node CPython produced) it is non-negative and `Nat` subtraction is exact. -/
-def transformArgs {δ : Type} (a : Arguments δ) : List (Arg δ) :=
+/-- `ASTConverter.transform_args`, with the `Argument` constructor as a parameter.  `num_no_defaults` is a
+    Python `int`; under `Arguments.WF` (always true of a node CPython produced) it is non-negative and `Nat`
+    subtraction is exact. -/
+def transformArgsWith {δ : Type} (mk : Name → Option δ → Kind → Bool → Arg δ) (a : Arguments δ) : List (Arg δ) :=
   let argsArgs := a.posonlyargs ++ a.args
   let nPosOnly := a.posonlyargs.length
   let numNoDefaults := argsArgs.length - a.defaults.length
   -- positional arguments without defaults
-  mapIdxFrom (fun i n => mkArg n none .pos (decide (i < nPosOnly))) 0 (argsArgs.take numNoDefaults)
+  mapIdxFrom (fun i n => mk n none .pos (decide (i < nPosOnly))) 0 (argsArgs.take numNoDefaults)
   -- positional arguments with defaults
-  ++ mapIdxFrom (fun i (nd : Name × δ) => mkArg nd.1 (some nd.2) .opt (decide (numNoDefaults + i < nPosOnly))) 0
+  ++ mapIdxFrom (fun i (nd : Name × δ) => mk nd.1 (some nd.2) .opt (decide (numNoDefaults + i < nPosOnly))) 0
        ((argsArgs.drop numNoDefaults).zip a.defaults)
   -- *arg
-  ++ optArg a.vararg .star
+  ++ optArg mk a.vararg .star
   -- keyword-only arguments (with and without defaults)
-  ++ (a.kwonlyargs.zip a.kwDefaults).map (fun (nk : Name × Option δ) => mkArg nk.1 nk.2 (kwKind nk.2) false)
+  ++ (a.kwonlyargs.zip a.kwDefaults).map (fun (nk : Name × Option δ) => mk nk.1 nk.2 (kwKind nk.2) false)
   -- **kwarg
-  ++ optArg a.kwarg .star2
+  ++ optArg mk a.kwarg .star2
+
+/-- the default front end: `ASTConverter.transform_args` -/
+def transformArgs {δ : Type} (a : Arguments δ) : List (Arg δ) := transformArgsWith mkArg a
+
+/-- the native front end (as observed through `nativeparse.read_parameters`) -/
+def transformArgsNative {δ : Type} (a : Arguments δ) : List (Arg δ) := transformArgsWith mkArgNative a
 
 /-- `do_func_def` / `read_func_def`: `if special_function_elide_names(name): for arg in args: arg.pos_only = True`
     (`special` = the function's name is in `MAGIC_METHODS_POS_ARGS_ONLY` [and, in fastparse only,
